@@ -448,3 +448,40 @@ Section StreamProofs.
     rewrite Q. unfold outcome_for, Stream.spec_stream, Stream.init_stream. cbn [pend]. reflexivity.
   Qed.
 End StreamProofs.
+
+(* ------------------------------------------------------------------ corollaries *)
+(* a body that fails never yields a symbol table *)
+Lemma stream_failed_never_ok :
+  forall (L : Type) (llen : L -> Z) (PS : Type) (init_ps : PS)
+         (recog : PS -> L -> PS + Z) (bump : PS -> PS) (lineno : PS -> Z),
+    (forall l, 1 <= llen l) ->
+    forall (lines : list L) (tail : Z), short_lines llen lines tail ->
+    forall script, delivered script = input_len L llen lines tail -> fails script = true ->
+    forall r x, drive_stream L llen PS init_ps recog bump lineno lines tail script = Ret (r, x) ->
+    forall p, r <> ROk p.
+Proof.
+  intros L llen PS init_ps recog bump lineno Hl lines tail Hs script Hd Hf r x H p.
+  destruct (stream_is_spec L llen PS init_ps recog bump lineno Hl lines tail Hs script Hd) as [x' E].
+  rewrite H in E. inversion E as [[E1 E2]]. unfold spec_stream. rewrite Hf.
+  destruct (fold_recog L PS recog lineno init_ps lines) as [q|[c ln]]; discriminate.
+Qed.
+
+(* bodies that deliver the same input without failing give the same outcome, however they cut it
+   into chunks and wherever they put empty chunks *)
+Lemma stream_two_scripts :
+  forall (L : Type) (llen : L -> Z) (PS : Type) (init_ps : PS)
+         (recog : PS -> L -> PS + Z) (bump : PS -> PS) (lineno : PS -> Z),
+    (forall l, 1 <= llen l) ->
+    forall (lines : list L) (tail : Z), short_lines llen lines tail ->
+    forall s1 s2, delivered s1 = input_len L llen lines tail -> delivered s2 = input_len L llen lines tail ->
+    fails s1 = false -> fails s2 = false ->
+    forall r1 x1 r2 x2,
+    drive_stream L llen PS init_ps recog bump lineno lines tail s1 = Ret (r1, x1) ->
+    drive_stream L llen PS init_ps recog bump lineno lines tail s2 = Ret (r2, x2) ->
+    r1 = r2 /\ r1 = spec L PS init_ps recog lineno lines tail.
+Proof.
+  intros L llen PS init_ps recog bump lineno Hl lines tail Hs s1 s2 D1 D2 F1 F2 r1 x1 r2 x2 H1 H2.
+  destruct (stream_is_spec L llen PS init_ps recog bump lineno Hl lines tail Hs s1 D1) as [y1 E1].
+  destruct (stream_is_spec L llen PS init_ps recog bump lineno Hl lines tail Hs s2 D2) as [y2 E2].
+  rewrite H1 in E1. rewrite H2 in E2. inversion E1. inversion E2. unfold spec_stream. rewrite F1, F2. split; reflexivity.
+Qed.
